@@ -6,7 +6,8 @@ rule = ("all 22 indicators, periods 1..8 (thorough: sampled to 64): an active pr
         "{1e-3, 1, 37.3, 1e6}; at every step inside the stretch at which the reference window is degenerate (the last n, or n+1 for the differencing "
         "ones, inputs are all the flat level) the output must be finite, inside the documented range, and the neutral value where one is defined "
         "(FAST 50, CCI 0, ROC 0, TR 0 exactly; MAD <= tau*M, SD <= sqrt(tau)*M, Bollinger half-width likewise). All runs also compared bit-exactly "
-        "with the float model. Known findings K3-K6 (ER, RSI, MFI, CCI) are classified by (indicator, kind of failure). Non-trivial: distinct case")
+        "with the float model. Plus flat stretches of 900..5400 equal inputs (periods 1..14) for the EMA-based indicators: long enough for the "
+        "exponential averages to underflow. Known findings K3-K6 (ER, RSI, MFI, CCI) are classified by (indicator, kind of failure). Non-trivial: distinct case")
 assumptions = ["degeneracy of the reference window is decided by the driver from the inputs it generated (exact float comparisons)"]
 
 LEVELS = [1e-3, 1.0, 37.3, 1e6]
